@@ -171,6 +171,17 @@ def _do(storage, o):
     if op == "add_blank":
         storage.add_blank_node_to_graph(o["g"], Class="K", NodeID=o["label"])
         return []
+    if op == "del_node":
+        # the property graph's delete_node on top of the store (lock-free in the library)
+        from fim.graph import networkx_property_graph as a
+        from fim.graph import networkx_property_graph_disjoint as b
+        if type(storage).__module__.endswith("disjoint"):
+            pg = b.NetworkXPropertyGraphDisjoint(graph_id=o["g"], importer=b.NetworkXGraphImporterDisjoint())
+        else:
+            pg = a.NetworkXPropertyGraph(graph_id=o["g"], importer=a.NetworkXGraphImporter())
+        assert pg.storage.lock is storage.lock, "the property graph does not sit on the instrumented store"
+        pg.delete_node(node_id=o["label"])
+        return []
     if op == "extract":
         g = storage.extract_graph(o["g"])
         return [] if g is None else sorted(str(d.get("NodeID")) for _, d in g.nodes(data=True))
@@ -230,7 +241,7 @@ def execute(backend, scripts, decisions):
                     raise
                 except Exception as e:  # noqa
                     res, out = [], type(e).__name__
-                r = s.log(tid, "ret", op=i, out=out)
+                r = s.log(tid, "ret", op=i, out=out, free=(o["op"] == "del_node"))
                 calls[tid][i] = {"call": c, "ret": r, "out": out, "res": res}
         except Abort:
             pass
@@ -251,7 +262,7 @@ def execute(backend, scripts, decisions):
     hist = {"backend": backend,
             "threads": [[dict(op=o, **(calls[t][i] or {"call": 0, "ret": 0, "out": "unfinished", "res": []}))
                          for i, o in enumerate(sc)] for t, sc in enumerate(scripts)],
-            "events": [{"seq": e["seq"], "thr": e["thr"] + 1, "ev": e["ev"]} for e in s.events
+            "events": [{"seq": e["seq"], "thr": e["thr"] + 1, "ev": e["ev"], "free": bool(e.get("free"))} for e in s.events
                        if e["ev"] in ("acq", "rel", "relerr", "call", "ret", "deadlock")],
             "final": content(storage, backend), "lock_left_held": bool(lock_left), "deadlock": s.deadlock,
             "decisions": {str(k): v for k, v in decisions.items()}}
